@@ -1083,6 +1083,12 @@ example : C17.CovRep (c17C.merge c17D) ([(1, 2), (2, 1), (4, 6)] ++ [(3, 3), (5,
 example : c17C.covarSamp = some (scp [(1, 2), (2, 1), (4, 6)] / ((([(1, 2), (2, 1), (4, 6)] : List (Rat × Rat)).length : Rat) - 1)) :=
   (C17.cov_finishers c17C [(1, 2), (2, 1), (4, 6)] c17RepC).1 (by decide)
 
+-- NONVACUOUS: PysparklingVerif.C17.corr_is_pearson_or_nan
+example : c17C.corrSq = if ssd ([(1, 2), (2, 1), (4, 6)].map (·.1)) * ssd ([(1, 2), (2, 1), (4, 6)].map (·.2)) = 0 then none
+    else some (scp [(1, 2), (2, 1), (4, 6)] * scp [(1, 2), (2, 1), (4, 6)] /
+      (ssd ([(1, 2), (2, 1), (4, 6)].map (·.1)) * ssd ([(1, 2), (2, 1), (4, 6)].map (·.2)))) :=
+  (C17.corr_is_pearson_or_nan c17C [(1, 2), (2, 1), (4, 6)] c17RepC).1
+
 end C17
 
 /-! ## C18 -/
